@@ -52,9 +52,6 @@ ASSUMPTIONS = [
 ]
 TRUSTED_EXTRA = c02.TRUSTED_EXTRA
 
-KEY_DIRECTION = "brew:direction-best-feat-is-values"
-KEY_AUTO = "assign_confidence:scores-none-ignores-direction"
-
 NAME_POOLS = [["feat0", "feat1", "feat2"], ["feat0", "feat1", "feat2"], ["score", "lnExpect", "absdM"], ["B", "a", "C"]]
 
 
@@ -171,8 +168,6 @@ def _brew_case(rng, thorough, **force):
     fmt = rng.choice(["tsv", "parquet"])
     override = force.get("override", rng.random() < 0.3)
     direction = force.get("direction", feats[rng.randint(1, 3)] if rng.random() < 0.12 else None)
-    if direction:
-        learn, cap = False, None      # so that the model can say what brew should return even when brew raises (see finding)
     rerun = force.get("rerun", rng.choice(["keep", "mixed", "mixed", "all", "none", None]))
     c = {"fn": "brew", "files": files, "feats": feats, "fscale": rng.choice([1, 1, 1, 2, 4]), "folds": folds,
          "seed": rng.randint(0, 10 ** 6), "test_fdr": fdr, "train_fdr": float(train_fdr), "workers": rng.choice([1, 1, 2, 4]),
@@ -605,6 +600,14 @@ def _view(c):
     return dict(c, files=files)
 
 
+def _c02_scores(c, obs):
+    """C02's score model (split, routing, calibration) on the positional view of the case: the column a fold model learned is
+    addressed by its POSITION among the features (obs["cols"]), whatever the columns are called in this case"""
+    o = dict(obs, features=None)
+    o.setdefault("ref_keys", obs["keys"])
+    return c02._scores_model(_view(c), o)
+
+
 def _best_features(c, rows_per_fold):
     """per fold: (index into the candidate list, count, desc) or None, by Model/BrewDecision.v"""
     thr_train = Fraction(str(c["train_fdr"]))
@@ -762,24 +765,22 @@ def run_case(c):
             pred_trained.append(bool(npass and npass > 0 and (c["override"] or npass >= b[1])))
     if obs.get("error"):
         _tag(c, "out:error")
-        if c.get("direction") and pred_trained is not None and "columns" in obs.get("message", ""):
-            # the fall-back of a model with a user-given direction (finding KEY_DIRECTION); decided below from the model
-            pass
-        elif _err_class(obs) == "RuntimeError:calibration":
+        if _err_class(obs) == "RuntimeError:calibration":
             # a fold accepted no target at test_fdr (C11's explicit error); brew returned no models.  When the estimator's column
             # does not depend on the fitted rows the model says whether some fold really accepts no target; otherwise the columns
             # (oracle) are unknown and the model cannot evaluate this run
             if pred_trained is not None:
                 if not all(pred_trained) or c.get("ensemble"):
                     return ("ok", {"note": "no calibration happens here: model predicts no error"}), impl_err
-                sm = c02._scores_model(_view(c), dict(obs, cols=[1] * k, seen=None))
+                sm = _c02_scores(c, dict(obs, cols=[1] * k, seen=None))
                 if not any(s_[0] == "err" and s_[1] == "RuntimeError" for s_ in sm):
                     return ("ok", {"note": "every fold accepts a target at test_fdr: brew should have returned scores"}), impl_err
             return ("err", "RuntimeError:calibration"), ("err", "RuntimeError:calibration")
-        else:
+        elif pred_trained is None:
             return ("ok", {"note": "model predicts no error here"}), impl_err
-        # the estimator's column does not depend on the fitted rows (generator: direction implies learn=False), so the
-        # model can say what brew should have returned although brew handed back no models
+        # an error the model does not predict.  The estimator's column does not depend on the fitted rows, so the model can say
+        # what brew should have returned although brew handed back no models (this is how the defect F26 showed: the fall-back
+        # of a Model(direction=...) raised instead of returning that feature)
         trained = pred_trained
         obs = dict(obs, cols=[1] * k)
     else:
@@ -790,12 +791,11 @@ def run_case(c):
     if pred_trained is not None and not obs.get("error"):
         impl["trained"] = obs["trained"]
     # (2) model scores
-    vc = _view(c)
     if all(trained):
         if c.get("ensemble"):
             mscores = _ensemble_scores(c, obs)
         else:
-            sm = c02._scores_model(vc, obs)
+            sm = _c02_scores(c, obs)
             if any(s[0] == "err" for s in sm):
                 kind = [s[1] for s in sm if s[0] == "err"][0]
                 if kind == "TypeError":
@@ -819,8 +819,7 @@ def run_case(c):
     model["scores"], model["descs"] = _returned(c, mscores, bests, choice)
     model["fallback"] = choice is not None
     if obs.get("error"):
-        # only reached for the direction finding: the model says what brew should have returned
-        model["note"] = "brew should fall back to the feature named by direction" if choice is not None else "brew should keep the (zero) scores"
+        model["note"] = "brew should fall back to the best feature" if choice is not None else "brew should keep the model scores"
         return ("ok", model), impl_err
     impl["scores"] = obs["scores"]
     impl["descs"] = obs["descs"]
@@ -1002,35 +1001,4 @@ def oracle(c, i):
 
 
 def finding_key(c, m, i):
-    if c["fn"] == "conf_auto":
-        # class: assign_confidence(scores=None) on a collection whose best feature is lower-is-better
-        auto = c.get("_auto")
-        if auto and not all(a[1] for a in auto):
-            return KEY_AUTO
-        return None
-    if c["fn"] == "brew" and c.get("direction"):
-        # class: Model(direction=<feature>): best_feat holds the VALUES of the feature, so the fall-back cannot read the column.
-        # Only the disagreements this explains are classified: (1) best_feat is an ndarray while count and direction agree,
-        # (2) the model predicts the fall-back and brew raised on read_data(columns=[<ndarray>])
-        if i is None:
-            return None
-        if m is None:
-            return KEY_DIRECTION if i[0] == "err" and "columns" in str(i[1]) else None
-        if i[0] == "err":
-            if m[0] == "ok" and m[1].get("fallback") and "columns" in str(i[1]):
-                return KEY_DIRECTION
-            return None
-        if m[0] != "ok" or i[0] != "ok" or "best" not in m[1] or "best" not in i[1]:
-            return None
-        mb, ib = m[1]["best"], i[1]["best"]
-        if len(mb) != len(ib) or any(b is None for b in ib):
-            return None
-        if any(a[1:] != b[1:] or b[0] != "<ndarray>" for a, b in zip(mb, ib)):
-            return None
-        if m[1].get("fallback"):
-            return None           # a fall-back that did not raise is not this finding
-        rerun_explained = (m[1].get("_rerun_fallback") and "columns" in str((i[1].get("rerun") or {}).get("error", "")))
-        if all(lib.jsonable(m[1].get(k)) == lib.jsonable(i[1].get(k)) for k in BREW_KEYS if k not in ("best", "rerun")) and \
-                (rerun_explained or lib.jsonable(m[1].get("rerun")) == lib.jsonable(i[1].get("rerun"))):
-            return KEY_DIRECTION
-    return None
+    return None       # no open finding: F25 (scores=None drops the direction) and F26 (direction= breaks the fall-back) are repaired
